@@ -1,5 +1,6 @@
 ------------------------------ MODULE SymSigned ------------------------------
 (* C01 / C02 — signed messages and detached signatures, Dolev-Yao style.
+   (sig class "extended": the intact signature bytes followed by extra bytes - a different value, never valid.)
 
    Keys, contexts, bodies are atoms.  H(ht, d), the sign body
    T(ctx, ht, h) = ctx " - SIGN - " itoa(ht) " - SIGN - " h   and   Sig(k, t)
@@ -15,7 +16,8 @@
 EXTENDS Naturals, Sequences, FiniteSets, TLC, Json, SequencesExt, IOUtils
 
 Key == {"k1", "k2", "km"}
-Ctx == {"c1", "c2"}
+Ctx == {"c1", "c2"}        \* verifier contexts
+SCtx == Ctx \cup {"c0"}    \* signing contexts; c0 is the empty context
 Body == {"d1", "d2", "hd1"}   \* hd1: data whose bytes are the digest of d1 (digest-length data is still just data)
 GoodHT == {"sha256", "blake3"}
 HT == GoodHT \cup {"sha1", "unknown", "bad99"}
@@ -26,14 +28,14 @@ T(c, ht, h) == <<"T", c, ht, h>>
 Sig(k, t) == <<"Sig", k, t>>
 
 MsgCases ==
-  [kind : {"msg"}, signer : Key, sctx : Ctx, sht : GoodHT, sbody : Body,
+  [kind : {"msg"}, signer : Key, sctx : SCtx, sht : GoodHT, sbody : Body,
    claimed : Key \cup {"garbage", "empty"}, cbody : Body \cup {"empty"}, cht : HT,
-   sig : {"intact", "flipped", "empty", "trunc"}, pk : {"none", "ok", "garbage"}, vctx : Ctx]
+   sig : {"intact", "flipped", "empty", "trunc", "extended"}, pk : {"none", "ok", "garbage"}, vctx : Ctx]
 
 SigCases ==
-  [kind : {"sig"}, signer : Key, sctx : Ctx, sht : GoodHT, sbody : Body,
+  [kind : {"sig"}, signer : Key, sctx : SCtx, sht : GoodHT, sbody : Body,
    claimed : Key, cbody : Body, cht : HT,
-   sig : {"intact", "flipped", "empty", "trunc"}, pk : {"none", "ok", "garbage"}, vctx : Ctx]
+   sig : {"intact", "flipped", "empty", "trunc", "extended"}, pk : {"none", "ok", "garbage"}, vctx : Ctx]
 
 Cases == MsgCases \cup SigCases
 
